@@ -852,7 +852,7 @@ func (n *Node) scheduleReset() {
 		// the lag of one slow Reset never adds up to the next one (and never reaches a height
 		// it has to propose at)
 		d = 0
-	} else if idx := s.sc.IndexAt(nh, n.ident); s.sc.SlowNode > 0 && n.ident == s.sc.SlowNode-1 && idx != primaryOf(nh, 0, len(s.sc.ValsAt(nh))) && idx != primaryOf(nh+1, 0, len(s.sc.ValsAt(nh+1))) {
+	} else if idx := s.sc.IndexAt(nh, n.ident); s.sc.SlowNode > 0 && n.ident == s.sc.SlowNode-1 && idx != primaryOf(nh, 0, len(s.sc.ValsAt(nh))) && s.sc.IndexAt(nh+1, n.ident) != primaryOf(nh+1, 0, len(s.sc.ValsAt(nh+1))) && s.sc.IndexAt(nh+2, n.ident) != primaryOf(nh+2, 0, len(s.sc.ValsAt(nh+2))) {
 		// a slow application, but never the one that has to propose next: a late
 		// proposal is a fault of the application, not a matter of message order
 		d = s.tape.Range(st, 0, 12) * int64(s.sc.TPB) / 8
